@@ -813,3 +813,25 @@ pub proof fn lemma_keeps_nerode_fin(a: MzAut, p0: Partition, p1: Partition, j: u
         assert((pt_bid(p1, y) == 1 && (a.fin)(y)) || (pt_bid(p1, y) == j && !(a.fin)(y)));
     }
 }
+
+// functional, total closures: the Minimizer's view of them as an automaton is sound
+pub proof fn lemma_closures_ok<D: Fn(u32, u32) -> u32, F: Fn(u32) -> bool>(m: Minimizer<D, F>)
+    requires closures_ok(m.num_states, m.alphabet_size, m.delta, m.is_final), 1 <= m.num_states < u32::MAX - 1, m.alphabet_size >= 1,
+    ensures funs_ok(m), aut_ok(mz_aut(m)),
+{
+    let a = mz_aut(m);
+    assert forall|x: u32, c: u32| x < a.n && c < a.m implies #[trigger] (a.d)(x, c) < a.n by {
+        if exists|r: u32| call_ensures(m.delta, (x, c), r) {
+            let r = choose|r: u32| call_ensures(m.delta, (x, c), r);
+            assert(call_ensures(m.delta, (x, c), r));
+        }
+    }
+    assert forall|x: u32, c: u32, r: u32| x < a.n && c < a.m && #[trigger] call_ensures(m.delta, (x, c), r) implies r == (a.d)(x, c) by {
+        let r2 = choose|r2: u32| call_ensures(m.delta, (x, c), r2);
+        assert(call_ensures(m.delta, (x, c), r2));
+    }
+    assert forall|x: u32, r: bool| x < a.n && #[trigger] call_ensures(m.is_final, (x,), r) implies r == (a.fin)(x) by {
+        let r2 = choose|r2: bool| call_ensures(m.is_final, (x,), r2);
+        assert(call_ensures(m.is_final, (x,), r2));
+    }
+}
